@@ -234,8 +234,15 @@ func MakePlan(seed int64, k int) Plan {
 	// ---- Phase C: invalid blocks with the requested header. Every such
 	// answer removes one peer for the rest of the scenario, so one peer is
 	// kept for the end. ----
+	firstC, lateDone := true, false
 	for alive > 1 {
-		switch pat := r.Intn(6); {
+		pat := r.Intn(6)
+		if firstC {
+			// Every scenario with a second peer starts this phase with the
+			// concurrent same-hash group whose invalid answer arrives late.
+			pat, firstC = 5, false
+		}
+		switch {
 		case pat == 0:
 			st, sel := banStep()
 			one(call(sel, "invalid, then honest from another peer", st, hon()))
@@ -273,11 +280,20 @@ func MakePlan(seed int64, k int) Plan {
 		default:
 			st, sel := banStep()
 			n := 2 + r.Intn(2)
+			late := r.Intn(2) == 0 || len(p.Groups) > 0 && !lateDone
+			lateDone = lateDone || late
 			g := Group{SameHash: true}
 			for i := 0; i < n; i++ {
 				c := call(sel, "concurrent, same hash, one invalid answer")
 				if i == 0 {
 					c.Stream = []Step{st}
+					if late {
+						// The true block goes to whichever call asks first,
+						// the invalid one to the second asker, and late:
+						// it arrives when the first call is done.
+						st.DelayMs = 40
+						c.Stream = []Step{hon(), st}
+					}
 				}
 				g.Calls = append(g.Calls, c)
 			}
